@@ -39,6 +39,9 @@ pub struct Session {
     pub calls: u64,
     pub files: BTreeMap<String, Vec<String>>,
     pub held_listings: Vec<Listing>,
+    /// replies typed at INPUT prompts by `cmd`-style helpers, and how many have been used
+    pub auto_replies: Vec<String>,
+    pub auto_pos: usize,
 }
 
 pub fn error_parts(e: &Error) -> (String, Option<u16>, Range<usize>) {
@@ -75,6 +78,8 @@ impl Session {
             calls: 0,
             files: BTreeMap::new(),
             held_listings: Vec::new(),
+            auto_replies: Vec::new(),
+            auto_pos: 0,
         }
     }
 
